@@ -268,6 +268,27 @@ def h3_language_oracle(rep, run3):
                          grammar={"nterms": meta["nts"], "root": meta["root"], "rules": [[ru["lhs"], [v if kd == 0 else bytes(meta["terms"][v]["name"]).decode("latin1") for kd, v in ru["rhs"]]] for ru in meta["rules"]]})
     return n
 
+def h3_value_oracle(rep, run3):
+    """C02 through the public DSL: for generated programs without conflict line the value and the contextual call log the real
+    parser returns are compared with the evaluation computed by the WHOLE proved pipeline (rule analysis by names, generator, lexer,
+    driver of the model) from the grammar AS WRITTEN - so a parser built for another grammar than the one written (wrong name
+    resolution, wrong slices) shows as a wrong value, with the input"""
+    n = 0
+    for gid in sorted(run3.real):
+        r = run3.real[gid]; m = run3.model.get(gid); meta = run3.meta[gid]
+        if m is None or r["skipped"] or not r["states"] or "CONFLICT" in r["diag"] or "CONFLICT" in (m.get("diag") or ""): continue
+        if r["dfa"] != m["dfa"]: continue          # a lexer difference (known finding D4 or a lexer change) is C03/C04's business
+        for j, (a, b) in enumerate(zip(r["inputs"], m["inputs"])):
+            if a["res"] == "LOOP" or b["res"] == "LOOP": continue
+            rep.cov["evaluations"] += 1; n += 1
+            if a["res"] != b["res"] or a["ctx"] != b["ctx"]:
+                ins = split_h3_inputs(run3, gid)
+                rep.fail(kind="value-is-not-the-evaluation-of-the-derivation-tree-in-the-grammar-as-written", parser=gid, bytes=list(ins[j][1]) if j < len(ins) else None,
+                         observed=a["res"][:160], expected=b["res"][:160], contextual_calls_observed=a["ctx"], contextual_calls_expected=b["ctx"],
+                         grammar={"nterms": meta["nts"], "root": meta["root"], "rules": [[ru["lhs"], [v if kd == 0 else (bytes(meta["terms"][v]["name"]).decode("latin1") if kd == 1 else "error") for kd, v in ru["rhs"]]] for ru in meta["rules"]]})
+                break
+    return n
+
 NP_TEXT = "NP grammars with a reachable non-productive nonterminal: the LR(1) automaton keeps items whose rule can never be completed, so a term that no sentence can continue is shifted and the syntax error is reported at a later term (S->a|b X; X->X c on 'b' reports <eof>); identified by: grammar has such a nonterminal, exactly one message is written, and it is the message the pinned model predicts"
 D12_TEXT = "D12 accept/reduce conflict hidden by the break on success in transitions() (ctpg.hpp): a state holding '## <- root .' and another completed item on <eof> gets a plain 'success' cell and no conflict line"
 
@@ -983,7 +1004,9 @@ def check_C02(rep):
     FX.run_fixed(rep, "values.cpp", "g++", "-O1", "value-not-the-bottom-up-evaluation-of-the-derivation", run_prefix="ulimit -s unlimited;")
     FX.run_fixed(rep, "values.cpp", "clang++", "-O1 -fsanitize=address,undefined -fno-sanitize-recover=all", "value-not-the-bottom-up-evaluation-of-the-derivation", run_prefix="ulimit -s unlimited;")
     run3 = h3_stage(rep)
-    if run3 is not None: h3_tables_and_runs(rep, run3, tables=False, runs=True)
+    if run3 is not None:
+        h3_tables_and_runs(rep, run3, tables=False, runs=True)
+        rep.notes["dsl_values_judged"] = h3_value_oracle(rep, run3)
     run = h1_stage(rep)
     if run is None: return rep
     def nt(cid, j, inp, ri, want, msgs): return want.startswith("VALUE") and want.count("r") >= 3 and len(set(re.findall(r"r(\d+)\(", want))) >= 2
